@@ -4,7 +4,8 @@
 From Coq Require Import List.
 From Coq.Strings Require Import Byte.
 From GI Require Import Lib.Bytes Gen.TxtarConsts Txtar.Txtar Txtar.TxtarFacts
-  Txtar.TxtarIndex Txtar.TxtarIndexFacts Txtar.TxtarHolds Txtar.TxtarHoldsFacts.
+  Txtar.TxtarIndex Txtar.TxtarIndexFacts Txtar.TxtarHolds Txtar.TxtarHoldsFacts
+  Lib.Utf8 Lib.Utf8Facts.
 Import ListNotations.
 
 Theorem C03_parse_format_parse : forall s, parse (format (parse s)) = parse s.
@@ -94,3 +95,20 @@ Print Assumptions C03_parse_idx_eq.
 Theorem C03_holds_on : forall s, c03_holds_on s = true.
 Proof. exact c03_holds_on_true. Qed.
 Print Assumptions C03_holds_on.
+
+(* ---- strings.TrimSpace (used by isMarker) at rune level, Lib/Utf8.v ---- *)
+
+(* the byte-table trim_space of the model strips exactly the maximal prefix and suffix
+   of white-space runes: runes decoded as utf8.DecodeRune / DecodeLastRune do, white
+   space as unicode.IsSpace defines it in the regenerated standard-library tables *)
+Theorem C03_trim_space_runes : forall d, trim_space d = trim_space_runes d.
+Proof. exact trim_space_eq. Qed.
+Print Assumptions C03_trim_space_runes.
+
+Theorem C03_trim_left_runes : forall d, trim_left d = trim_left_runes d.
+Proof. exact trim_left_eq. Qed.
+Print Assumptions C03_trim_left_runes.
+
+Theorem C03_trim_right_runes : forall d, trim_right d = trim_right_runes d.
+Proof. exact trim_right_eq. Qed.
+Print Assumptions C03_trim_right_runes.
